@@ -521,6 +521,14 @@ VAll     == {I1, F1, T1, L1, M1}
 VTwo     == {I1, I2}
 VOne     == {I1}
 VNone    == {JNull, M1, L1}
+\* edits that are hard for weak fingerprints of the serialised text (equal length, equal byte sum, equal
+\* position-weighted byte sum: Adler-32 / Fletcher collide): 121 -> 202, [0, 2, 0] -> [1, 0, 1]
+I121 == JInt(121)
+I202 == JInt(202)
+L020 == JList(<<JInt(0), JInt(2), JInt(0)>>)
+L101 == JList(<<JInt(1), JInt(0), JInt(1)>>)
+VHard2 == {I121, I202}
+VHard4 == {I121, I202, L020, L101}
 NVTypes  == {I1, T1}
 MapsSmall == {OMap(<<<<KA, I1>>>>), OMap(<<<<KB, F1>>, <<KA, T1>>>>)}
 MapsTypes == {OMap(<<<<KA, v>>>>) : v \in VTypes} \cup {OMap(<<<<KB, I2>>, <<KA, F1>>>>), OMap(<<<<KN, M1>>>>)}
